@@ -25,6 +25,7 @@ type GenOpt struct {
 	Types      string // subset of "fdlpcb"; weights are fixed
 	Xattrs     bool
 	SymXattrs  bool // trusted.* on symlinks (root only)
+	SecXattrs  bool // security.capability on regular files (root only; chown strips it)
 	Links      bool // hard link groups of regular files
 	SpecLinks  bool // hard link groups of fifos/devices
 	Owners     []uint32
@@ -42,7 +43,7 @@ type GenOpt struct {
 }
 
 func DefaultOpt() GenOpt {
-	return GenOpt{MaxEntries: 24, MaxDepth: 4, MaxFanout: 6, Names: Names, Types: "fdlpcb", Xattrs: true, Links: true, Owners: []uint32{0, 1234, 65534}, Special: true, LongNames: true, ReadOnly: true}
+	return GenOpt{MaxEntries: 24, MaxDepth: 4, MaxFanout: 6, Names: Names, Types: "fdlpcb", Xattrs: true, SecXattrs: true, Links: true, Owners: []uint32{0, 1234, 65534}, Special: true, LongNames: true, ReadOnly: true}
 }
 
 func (o GenOpt) has(t byte) bool { return strings.IndexByte(o.Types, t) >= 0 }
@@ -136,6 +137,14 @@ func (g *gen) meta(e *Entry) {
 		for i := 0; i < n; i++ {
 			e.Xattrs[core.Pick(r, []string{"user.k1", "user.k2", "user.verif.long-key"})] = r.Bytes(core.Pick(r, []int{0, 1, 7, 40}))
 		}
+	}
+	if g.o.SecXattrs && e.Type == File && r.P(1, 12) {
+		if e.Xattrs == nil {
+			e.Xattrs = map[string][]byte{}
+		}
+		// vfs_cap_data revision 2: cap_net_raw (or cap_chown) permitted
+		bit := core.Pick(r, []byte{0x20, 0x01})
+		e.Xattrs["security.capability"] = []byte{1, 0, 0, 2, 0, bit, 0, 0, 0, 0, 0, 0, 0, 0, 0, 0, 0, 0, 0, 0}
 	}
 	if g.o.SymXattrs && e.Type == Symlink && r.P(1, 6) {
 		e.Xattrs = map[string][]byte{"trusted.vx": r.Bytes(5)}
